@@ -6,6 +6,7 @@ package interp
 import (
 	"fmt"
 	"math"
+	"os"
 	"sort"
 	"strings"
 	"sync"
@@ -50,12 +51,13 @@ type Config struct {
 	KeepScripts    int  // number of assertion query scripts kept for cross-checks
 	SamplePaths    int  // passing paths whose model/tape is kept as samples
 	Trace          bool
+	NoSnapshot     bool // run package initialisers on every path
 	Params         map[string]int64 // harness parameters (rt.Param)
 }
 
 func (c *Config) defaults() {
 	if c.Workers <= 0 {
-		c.Workers = 16
+		c.Workers = 8
 	}
 	if c.QueryTimeoutMS <= 0 {
 		c.QueryTimeoutMS = 20000
@@ -114,6 +116,7 @@ type RunResult struct {
 	Scripts       []string       `json:"-"`
 	Assumes       int            `json:"assumes"`
 	MaxGoroutines int            `json:"max_goroutines"`
+	Notes         []string       `json:"notes,omitempty"`
 }
 
 type workItem struct {
@@ -132,6 +135,8 @@ type Run struct {
 	res     RunResult
 	failSig map[string]bool
 	incSig  map[string]bool
+	tplOnce sync.Once
+	tpl     *template
 }
 
 type pathEnd struct{ why string }
@@ -164,6 +169,9 @@ type explorer struct {
 	allocTotal  *smt.Term
 	absAlloc    bool
 	poolHavoc   bool
+	template    bool // package-init template: nothing symbolic may happen
+	pcSet       map[int]bool
+	known       int
 	// outcome
 	failures []Failure
 	inconc   []string
@@ -206,7 +214,25 @@ func (ex *explorer) queue(alt Decision, m smt.Model) {
 
 func (ex *explorer) assertPC(t *smt.Term) {
 	ex.pc = append(ex.pc, t)
+	if ex.pcSet == nil {
+		ex.pcSet = map[int]bool{}
+	}
+	ex.addFacts(t)
 	ex.solver.Assert(t)
+}
+
+// addFacts records the conjuncts of an asserted term, so that a later branch on a condition
+// that is syntactically a known fact (or the negation of one) needs no solver query.
+func (ex *explorer) addFacts(t *smt.Term) {
+	ex.pcSet[t.ID] = true
+	if t.Op == smt.OBAnd {
+		ex.addFacts(t.Args[0])
+		ex.addFacts(t.Args[1])
+	}
+	if t.Op == smt.OBNot && t.Args[0].Op == smt.OBOr {
+		ex.addFacts(ex.ctx.Not(t.Args[0].Args[0]))
+		ex.addFacts(ex.ctx.Not(t.Args[0].Args[1]))
+	}
 }
 
 // evalModel evaluates t under the current model, if there is one.
@@ -247,6 +273,15 @@ func (ex *explorer) ensureModel() bool {
 func (ex *explorer) Branch(fr *frame, c *smt.Term, kind string) bool {
 	if c.IsConst() {
 		return c.Val == 1
+	}
+	// a condition that is syntactically a known fact needs neither a decision nor a query
+	if ex.pcSet[c.ID] {
+		ex.known++
+		return true
+	}
+	if ex.pcSet[ex.ctx.Not(c).ID] {
+		ex.known++
+		return false
 	}
 	if fr != nil {
 		fr.loopGuard(ex)
@@ -489,9 +524,8 @@ func (ex *explorer) Assert(id string, c *smt.Term, msg string) {
 	case smt.Unsat:
 		ex.proved[id]++
 	case smt.Sat:
+		// later assertions of the path are still judged independently (no assumption is added)
 		ex.fail("assert", id, msg, m)
-		// continue under the assumption that the assertion holds, to find independent failures
-		ex.Assume(c)
 	default:
 		ex.inconclusive("solver unknown on assertion " + id)
 	}
@@ -523,6 +557,15 @@ func (r *Run) push(w workItem) {
 	r.stack = append(r.stack, w)
 	r.mu.Unlock()
 	r.cond.Signal()
+}
+
+func (r *Run) note(s string) {
+	r.mu.Lock()
+	if !r.incSig["note:"+s] {
+		r.incSig["note:"+s] = true
+		r.res.Notes = append(r.res.Notes, s)
+	}
+	r.mu.Unlock()
 }
 
 func (r *Run) keepScript(s string) {
@@ -653,13 +696,20 @@ func Explore(prog *ssa.Program, pkg *ssa.Package, fname string, cfg Config) *Run
 			defer wg.Done()
 			solver := smt.NewZ3(cfg.QueryTimeoutMS)
 			defer solver.Close()
+			if lp := os.Getenv("SYMGO_SMTLOG"); lp != "" && cfg.Workers == 1 {
+				if f, err := os.Create(lp); err == nil {
+					solver.Log = f
+					defer f.Close()
+				}
+			}
 			funcs := map[*ssa.Function]int{}
+			wk := &workerCtx{funcs: funcs, free: map[int][]*bigBuf{}}
 			for {
 				item, ok := r.pop()
 				if !ok {
 					break
 				}
-				runPath(r, prog, pkg, fn, item, solver, funcs)
+				runPath(r, prog, pkg, fn, item, solver, wk)
 				r.done()
 			}
 			statsMu.Lock()
@@ -685,14 +735,24 @@ func Explore(prog *ssa.Program, pkg *ssa.Package, fname string, cfg Config) *Run
 	return &r.res
 }
 
-func runPath(r *Run, prog *ssa.Program, pkg *ssa.Package, fn *ssa.Function, item workItem, solver *smt.Solver, funcs map[*ssa.Function]int) {
+func runPath(r *Run, prog *ssa.Program, pkg *ssa.Package, fn *ssa.Function, item workItem, solver *smt.Solver, wk *workerCtx) {
 	ex := &explorer{run: r, ctx: smt.NewCtx(), solver: solver, prefix: item.prefix, proved: map[string]int{}, concOK: map[string]int{}}
 	if len(item.prefix) > 0 {
 		ex.pendingModel = item.model
 	}
 	solver.LastErr = ""
 	solver.Begin(ex.ctx)
-	i := newInterpreter(prog, ex, funcs)
+	if wk.tpl == nil && !r.cfg.NoSnapshot {
+		r.tplOnce.Do(func() {
+			r.tpl = buildTemplate(r, prog, pkg, wk)
+			if !r.tpl.ok {
+				r.res.Notes = append(r.res.Notes, "init snapshot unavailable (initialisers run on every path): "+r.tpl.why)
+			}
+		})
+		wk.tpl = r.tpl
+	}
+	i := newInterpreter(prog, ex, wk)
+	defer i.releaseBig()
 	end := "done"
 	func() {
 		defer func() {
@@ -717,7 +777,11 @@ func runPath(r *Run, prog *ssa.Program, pkg *ssa.Package, fn *ssa.Function, item
 			}
 		}()
 		defer i.sch.killAll()
-		i.runInits(pkg)
+		if wk.tpl != nil && wk.tpl.ok {
+			wk.tpl.instantiate(i)
+		} else {
+			i.runInits(pkg)
+		}
 		call(i, nil, 0, fn, nil)
 		i.sch.mainDone(i)
 	}()
